@@ -93,9 +93,9 @@ func c14Scenarios(tier string) []*core.Scenario {
 			a := pool[c.Pick("a", len(pool))]
 			b := pool[c.Pick("b", len(pool))]
 			return &core.Case{
-				Key:  fmt.Sprintf("BITS %d|%s ; %s", mode, a, b),
-				Feat: feat("mode", fmt.Sprint(mode), "a", a, "b", b),
-				Srcs: []string{c14Prog(mode, []string{a, b}), c14Prog(mode, []string{a}), c14Prog(mode, []string{b}), c14Prog(mode, nil)},
+				Key:       fmt.Sprintf("BITS %d|%s ; %s", mode, a, b),
+				Feat:      feat("mode", fmt.Sprint(mode), "a", a, "b", b),
+				FreshRefs: true, Srcs: []string{c14Prog(mode, []string{a, b}), c14Prog(mode, []string{a}), c14Prog(mode, []string{b}), c14Prog(mode, nil)},
 				Judge: c14Judge(2),
 			}
 		}})
@@ -112,9 +112,9 @@ func c14Scenarios(tier string) []*core.Scenario {
 				mode := []int{16, 32}[c.Pick("mode", 2)]
 				a, b, d := sub[c.Pick("a", len(sub))], sub[c.Pick("b", len(sub))], sub[c.Pick("c", len(sub))]
 				return &core.Case{
-					Key:  fmt.Sprintf("BITS %d|%s ; %s ; %s", mode, a, b, d),
-					Feat: feat("mode", fmt.Sprint(mode), "a", a, "b", b, "c", d),
-					Srcs: []string{c14Prog(mode, []string{a, b, d}), c14Prog(mode, []string{a}), c14Prog(mode, []string{b}), c14Prog(mode, []string{d}), c14Prog(mode, nil)},
+					Key:       fmt.Sprintf("BITS %d|%s ; %s ; %s", mode, a, b, d),
+					Feat:      feat("mode", fmt.Sprint(mode), "a", a, "b", b, "c", d),
+					FreshRefs: true, Srcs: []string{c14Prog(mode, []string{a, b, d}), c14Prog(mode, []string{a}), c14Prog(mode, []string{b}), c14Prog(mode, []string{d}), c14Prog(mode, nil)},
 					Judge: c14Judge(3),
 				}
 			}})
@@ -138,9 +138,9 @@ func c14Scenarios(tier string) []*core.Scenario {
 				return equDefs + x
 			}
 			return &core.Case{
-				Key:  fmt.Sprintf("BITS %d|EQUs|%s ; %s", mode, a, b),
-				Feat: feat("mode", fmt.Sprint(mode), "a", a, "b", b),
-				Srcs: []string{pr([]string{a, b}), pr([]string{a}), pr([]string{b}), pr(nil)},
+				Key:       fmt.Sprintf("BITS %d|EQUs|%s ; %s", mode, a, b),
+				Feat:      feat("mode", fmt.Sprint(mode), "a", a, "b", b),
+				FreshRefs: true, Srcs: []string{pr([]string{a, b}), pr([]string{a}), pr([]string{b}), pr(nil)},
 				Judge: c14Judge(2),
 			}
 		}})
@@ -176,9 +176,9 @@ func c14Scenarios(tier string) []*core.Scenario {
 				rest := append(append([]string{}, lp[:pos]...), lp[pos+1:]...)
 				// deleting S from P: out(P) = out(P[:pos]) || out(S) || out(P[pos+1:]) is checked as a 3-part concatenation
 				return &core.Case{
-					Key:  fmt.Sprintf("BITS %d|prog %v delete #%d (%s)", mode, lp[0], pos, lp[pos]),
-					Feat: feat("mode", fmt.Sprint(mode), "op", "delete", "stmt", lp[pos], "pos", fmt.Sprint(pos)),
-					Srcs: []string{c14Prog(mode, lp), c14Prog(mode, lp[:pos]), c14Prog(mode, []string{lp[pos]}), c14Prog(mode, lp[pos+1:]), c14Prog(mode, nil)},
+					Key:       fmt.Sprintf("BITS %d|prog %v delete #%d (%s)", mode, lp[0], pos, lp[pos]),
+					Feat:      feat("mode", fmt.Sprint(mode), "op", "delete", "stmt", lp[pos], "pos", fmt.Sprint(pos)),
+					FreshRefs: true, Srcs: []string{c14Prog(mode, lp), c14Prog(mode, lp[:pos]), c14Prog(mode, []string{lp[pos]}), c14Prog(mode, lp[pos+1:]), c14Prog(mode, nil)},
 					Judge: func(rs []*core.Result) core.Verdict {
 						v := c14Judge(3)(rs)
 						_ = rest
@@ -189,13 +189,73 @@ func c14Scenarios(tier string) []*core.Scenario {
 			s := ins[op-1]
 			withIns := append(append(append([]string{}, lp[:pos]...), s), lp[pos:]...)
 			return &core.Case{
-				Key:  fmt.Sprintf("BITS %d|prog %v insert %q at %d", mode, lp[0], s, pos),
-				Feat: feat("mode", fmt.Sprint(mode), "op", "insert", "stmt", s, "pos", fmt.Sprint(pos)),
-				Srcs: []string{c14Prog(mode, withIns), c14Prog(mode, lp[:pos]), c14Prog(mode, []string{s}), c14Prog(mode, lp[pos:]), c14Prog(mode, nil)},
+				Key:       fmt.Sprintf("BITS %d|prog %v insert %q at %d", mode, lp[0], s, pos),
+				Feat:      feat("mode", fmt.Sprint(mode), "op", "insert", "stmt", s, "pos", fmt.Sprint(pos)),
+				FreshRefs: true, Srcs: []string{c14Prog(mode, withIns), c14Prog(mode, lp[:pos]), c14Prog(mode, []string{s}), c14Prog(mode, lp[pos:]), c14Prog(mode, nil)},
 				Judge: c14Judge(3),
 			}
 		}})
+	// programs that switch mode: inserting a mode-independent one-byte statement anywhere - also between a directive
+	// and the next directive - changes the output by exactly that byte
+	modeProgs := [][]string{
+		{"MOV AX,1", "[BITS 32]", "[BITS 16]", "MOV AX,2", "MOV EAX,3", "[BITS 32]", "ADD ECX,0x100", "PUSH 0x100", "[BITS 16]", "MOV CX,[BX+2]"},
+		{"[BITS 32]", "MOV EAX,1", "MOV AX,1", "[BITS 16]", "[BITS 32]", "[BITS 16]", "MOV EAX,1", "AND AX,0x00ff", "[BITS 32]", "[BITS 32]", "IMUL ECX,4"},
+		{"[BITS 16]", "[INSTRSET \"i486p\"]", "[BITS 32]", "MOV EAX,1", "lbl1:", "[BITS 16]", "X1 EQU 5", "[BITS 32]", "MOV AX,X1", "[BITS 16]", "MOV AX,X1"},
+	}
+	oneByte := []struct {
+		text string
+		b    byte
+	}{{"HLT", 0xF4}, {"NOP", 0x90}, {"DB 0x90", 0x90}, {"CLI", 0xFA}}
+	scs = append(scs, &core.Scenario{
+		Name: "insert_across_mode_switches", Bound: -1,
+		Rule:   "3 programs that switch between [BITS 16] and [BITS 32] (incl. directives directly behind each other) x every position x 4 mode-independent one-byte statements: out(with the statement) must be out(without it) with that one byte inserted at the offset the prefix alone assembles to",
+		Bounds: map[string]any{"programs": modeProgs, "inserted": []string{"HLT", "NOP", "DB 0x90", "CLI"}},
+		Build: func(c *core.Chooser) *core.Case {
+			mp := modeProgs[c.Pick("prog", len(modeProgs))]
+			pos := c.Pick("pos", len(mp)+1)
+			ob := oneByte[c.Pick("stmt", len(oneByte))]
+			with := append(append(append([]string{}, mp[:pos]...), ob.text), mp[pos:]...)
+			return &core.Case{
+				Key:       fmt.Sprintf("modes|prog %d insert %q at %d", indexOf(modeProgs, mp), ob.text, pos),
+				Feat:      feat("op", "insert_modes", "stmt", ob.text, "pos", fmt.Sprint(pos)),
+				FreshRefs: true, Srcs: []string{c14Prog(16, with), c14Prog(16, mp), c14Prog(16, mp[:pos])},
+				Judge: func(rs []*core.Result) core.Verdict {
+					v := core.Verdict{}
+					for _, r := range rs {
+						if core.ReportsError(r, nil) {
+							v.Outcome = "diagnosed"
+							v.Fails = []core.Fail{{Facet: "concat", Dev: "refused", Detail: errSummary(r)}}
+							return v
+						}
+					}
+					v.Outcome, v.Nontrivial = "assembled", true
+					without, off := rs[1].Out, len(rs[2].Out)
+					if off > len(without) {
+						v.Fails = []core.Fail{{Facet: "concat", Dev: "prefix_longer_than_program", Detail: fmt.Sprintf("prefix %x program %x", rs[2].Out, without)}}
+						return v
+					}
+					want := append(append(append([]byte{}, without[:off]...), ob.b), without[off:]...)
+					if !bytes.Equal(rs[0].Out, want) {
+						dev := "bytes_differ"
+						if len(rs[0].Out) != len(want) {
+							dev = fmt.Sprintf("length:%+d", len(rs[0].Out)-len(want))
+						}
+						v.Fails = []core.Fail{{Facet: "concat", Dev: dev, Detail: fmt.Sprintf("with %q at %d: got %x want %x", ob.text, pos, rs[0].Out, want)}}
+					}
+					return v
+				},
+			}
+		}})
 	return scs
+}
+
+func indexOf(all [][]string, one []string) int {
+	for i := range all {
+		if &all[i][0] == &one[0] {
+			return i
+		}
+	}
+	return -1
 }
 
 func init() {
